@@ -9,9 +9,7 @@ CONSTANTS Bug = "none"  MaxLen = 4
  Updatable = {"stream_encoder", "easy_encoder", "stream_encoder_mt", "raw_encoder", "block_encoder"}
  OneShots = {"easy_buffer_encode", "stream_buffer_encode", "raw_buffer_encode", "block_buffer_encode",
    "stream_buffer_decode", "raw_buffer_decode"}
- OpNames = {"Init", "CodeSome", "CodeAll", "Update", "End", "StrToFilters", "PropsDecode", "BlockHeaderDecode",
-   "FilterFlagsDecode", "FiltersFree", "FiltersCopy", "StrFromFilters", "StrListFilters", "FreeStr", "IndexInit",
-   "IndexBufferDecode", "IndexAppend", "IndexEnd", "IndexCat", "IndexDup", "IndexHashInit", "IndexHashEnd", "OneShot"}
- SameKind = FALSE
+ OpNames = {"Init", "CodeSome", "CodeAll", "Update", "End"}
+ SameKind = TRUE
 ACTION_CONSTRAINT Emit
 CHECK_DEADLOCK FALSE
